@@ -125,6 +125,27 @@ class WithMeta(metaclass=Meta):
   pass
 
 
+class WithMetaAndCall(metaclass=Meta):
+  """Calling the class goes through the metaclass; calling an instance through this."""
+
+  def __call__(self, a, b=2):
+    LOG.append(('WithMetaAndCall.__call__', a, b))
+    return ('instance-call', a, b)
+
+
+class ShadowedCall(object):
+  """An instance attribute named __call__ does not change what obj(...) runs."""
+
+  def __init__(self):
+    self.__call__ = lambda a, b=2: ('instance-attribute', a, b)
+
+  def __call__(self, a, b=2):
+    LOG.append(('ShadowedCall.__call__', a, b))
+    if a > 0:
+      return ('class-call', a + b)
+    return ('class-call', a - b)
+
+
 class Slotted(object):
   __slots__ = ('w',)          # no __weakref__: cannot be remembered by a weak cache
 
@@ -362,7 +383,10 @@ ARGSETS = {
     'ab': [((1,), None), ((-1, 5), None), ((2,), {}), ((3,), {'b': 7}), ((), {'a': 1, 'b': 4}),
            ((), None), ((1, 2, 3, 4), None)],
     'fn': [((1,), None), ((-1, 5, 8, 9), None), ((2,), {'c': 4, 'z': 1}), ((3,), {'b': 7}),
-           ((), {}), ((1, 2), {'b': 3})],
+           ((), {}), ((1, 2), {'b': 3}),
+           # keywords named like parameters the wrapper's own helpers use
+           ((1,), {'f': 5, 'args': 6, 'kwargs': 7}), ((1,), {'options': 1, 'caller_fn_scope': 2, 'func': 3}),
+           ((1,), {'self': 1, 'entity': 2, 'fn': 3, 'exc': 4, 'update_cache': 5})],
     'b_only': [((), None), ((5,), None), ((), {'b': 7}), ((), {}), ((1, 2, 3), None),
                ((), {'b': 9, 'c': 1}), ((), {'z': 4, 'y': 5})],
     'ctor': [((), None), ((4,), None), ((4, 5, 6), {'tag': 'q'}), ((), {'w': 9}), ((), {'nope': 1})],
@@ -437,6 +461,8 @@ def build_pool(lane, which):
   add('callclass', 'callable_class', U.CallClass(), fnname='__call__')
   add('metaclass_call', 'callable_obj', U.WithMeta, fnname='__call__')
   add('slotted_callable', 'callable_obj', U.Slotted(), fnname='__call__')
+  add('metaclass_call2', 'callable_obj', U.WithMetaAndCall, fnname='__call__')
+  add('shadowed_call', 'callable_obj', U.ShadowedCall(), fnname='__call__')
   add('manual_bound', 'function', types.MethodType(U.free_method, c1), fnname='free_method')
   add('falsy_bag_method', 'function', U.Bag().describe, fnname='describe')
   add('falsy_obj_method', 'function', U.Quiet().meth, fnname='meth')
@@ -691,7 +717,7 @@ def _gen_fault(rng, tier):
   return {'kind': 'disk-full', 'budget': rng.choice([0, 10, 200, 1000])}
 
 
-CONVERTIBLE = ['caller', 'caller', 'star_caller', 'nested2', 'raiser_passthrough', 'raiser', 'falsy_bag_method', 'falsy_obj_method', 'nt_method', 'metaclass_call', 'slotted_callable', 'manual_bound', 'fn', 'lam', 'nested', 'bound', 'unbound', 'cmeth', 'cmeth_inst', 'smeth', 'callable',
+CONVERTIBLE = ['caller', 'caller', 'metaclass_call2', 'shadowed_call', 'fn', 'star_caller', 'nested2', 'raiser_passthrough', 'raiser', 'falsy_bag_method', 'falsy_obj_method', 'nt_method', 'metaclass_call', 'slotted_callable', 'manual_bound', 'fn', 'lam', 'nested', 'bound', 'unbound', 'cmeth', 'cmeth_inst', 'smeth', 'callable',
                'decorated', 'caller', 'raiser', 'partial1', 'partial_nested', 'partial_method',
                'partial_chain', 'partial_chain3', 'partial_subclass',
                'mod:malty', 'mod:numpy_like', 'mod:reporting', 'mod:copyx', 'np_sub_overridden',
